@@ -229,3 +229,22 @@ def dotted(node):
         parts.append(node.id)
         return ".".join(reversed(parts))
     return None
+
+
+def returned_names(fn):
+    """Names returned by the function's return statements (first element for tuples)."""
+    out = []
+    for r in walk_local(fn):
+        if isinstance(r, ast.Return) and r.value is not None:
+            v = r.value
+            if isinstance(v, ast.Name):
+                out.append(v.id)
+            elif isinstance(v, ast.Tuple):
+                out.append(tuple(norm(e) for e in v.elts))
+    return out
+
+
+def single_def(scope, name):
+    """the unique `name = value` assignment in scope (local walk), else None"""
+    ds = [s for s in walk_local(scope) if isinstance(s, ast.Assign) and len(s.targets) == 1 and norm(s.targets[0]) == name]
+    return ds[0] if len(ds) == 1 else None
